@@ -404,7 +404,9 @@ def report(run, stream, items, outs, fresh, res, limit=3, keep_order=False):
 
 # ------------------------------------------------------------------------------------------ generator histories
 GEN_SHAPE = [[], [0], [1, 0], [3], [2, 4]]        # G3 calls itself; G4 = {G2, G4}: a cycle reached after work
-GEN_KINDS = [0, 0, 0, 1, 2, 2, 3, 4, 5, 6]        # how a body ends when it does not return a Module (Model/C08GenFail.v)
+GEN_KINDS = [0, 0, 0, 1, 2, 2, 3, 4, 5, 6, 7, 7]  # how a body ends when it does not return a Module (Model/C08GenFail.v)
+# kind 7 (C09 strengthening round): the call is made with a parameter value that has no JSON form; the body runs to its end and
+# returns a Module, NAMING it raises.  For the cache that is a kind-0 failure after ALL nested calls: `mode_for_model`.
 
 
 def gen_jobs(r, n, maxlen):
@@ -442,13 +444,25 @@ def gen_corpus():
             G([dict(key=0, modes={"0": [0, 4]}), dict(key=0, modes={"0": [0, 4]}), dict(key=0, modes={})]),  # a test outcome, twice
             G([dict(key=1, modes={"1": [1, 1]}), dict(key=1, modes={"1": [1, 1]}), dict(key=1, modes={})]),  # returns no Module
             G([dict(key=2, modes={"0": [0, 5]}), dict(key=2, modes={}), dict(key=2, modes={})], unc=[1]),   # through an uncached generator
-            G([dict(key=1, modes={"1": [0, 6]}), dict(key=1, modes={})], unc=[1])]
+            G([dict(key=1, modes={"1": [0, 6]}), dict(key=1, modes={})], unc=[1]),
+            # C09 strengthening round: naming the result fails after the body ran - then the same call again, a caller of it, a
+            # corrected call (seeded changes C08r2-A / C09r2-A: the un-named Module was left in the cache)
+            G([dict(key=0, modes={"0": [0, 7]}), dict(key=0, modes={"0": [0, 7]}), dict(key=0, modes={})]),
+            G([dict(key=2, modes={"1": [1, 7]}), dict(key=2, modes={"1": [1, 7]}), dict(key=1, modes={"1": [1, 7]}), dict(key=2, modes={})]),
+            G([dict(key=1, modes={"1": [1, 7]}), dict(key=1, modes={"1": [1, 7]}), dict(key=0, modes={})], unc=[1])]
+
+
+def mode_for_model(k, mode):
+    return [len(GEN_SHAPE[k]), 0] if mode[1] == 7 else mode
 
 
 def c_gout(r, names):
     if "ok" in r:
         return f"(GOk {names.setdefault(r['ok'], len(names) + 1)})"
     cls = r["err"]["cls"]
+    m = re.search(r"Object of type 'NoName(\d+)' is not JSON serializable", r["err"]["msg"])
+    if m and cls == "TypeError":
+        return f"(GErr (GE {cn(int(m.group(1)))} {cn(0)}))"
     m = re.search(r"body of G(\d+) raised", r["err"]["msg"])
     if m and cls in GEN_KIND_OF:
         return f"(GErr (GE {cn(int(m.group(1)))} {cn(GEN_KIND_OF[cls])}))"
@@ -466,7 +480,7 @@ def c_gcase(job, out, fresh):
     steps = []
     for k, st in enumerate(job["steps"]):
         r, f = out["steps"][k], fresh[k]
-        modes = clist(sorted((int(a), b) for a, b in st["modes"].items()), lambda e: f"({cn(e[0])}, Some ({cn(e[1][0])}, {cn(e[1][1])}))")
+        modes = clist(sorted((int(a), mode_for_model(int(a), b)) for a, b in st["modes"].items()), lambda e: f"({cn(e[0])}, Some ({cn(e[1][0])}, {cn(e[1][1])}))")
         steps.append(f"{{| g_key := {cn(st['key'])}; g_modes := {modes}; g_out := {c_gout(r, names)}; g_fresh := {c_gout(f, names)}; "
                      f"g_pend_empty := {cbool(r['pend'] == 0)}; g_stack_empty := {cbool(r['stack'] == 0)}; "
                      f"g_done := {clist(r['done'], cn)}; g_runs := {clist(sorted((int(a), b) for a, b in r['runs'].items()), lambda e: cpair(*e))} |}}")
@@ -500,6 +514,11 @@ def gen_coverage(jobs, outs, cov):
                     cov["gen_base_exception_then_same_call_again"] += 1
                 if int(m.group(1)) != st["key"]:
                     cov["gen_base_exception_through_nested_call"] += 1
+            mn = re.search(r"Object of type 'NoName(\d+)'", r["err"]["msg"])
+            if mn:
+                nxt = j["steps"][i + 1] if i + 1 < len(j["steps"]) else None
+                if nxt and (nxt["modes"].get(mn.group(1)) or [0, 0])[1] == 7 and int(mn.group(1)) in gen_reach(j["gens"], nxt["key"]):
+                    cov["gen_naming_failed_then_call_repeated"] += 1
             if "returned" in r["err"]["msg"] and "must return" in r["err"]["msg"] and later:
                 cov["gen_non_module_result_then_more"] += 1
             if m and int(m.group(1)) in j.get("uncached", []) and later:
@@ -602,6 +621,7 @@ TARGETS = {
     "gen_base_exception_through_nested_call": "... raised in a nested generator call",
     "gen_non_module_result_then_more": "generator bodies returning no Module, followed by more calls",
     "gen_uncached_body_failed_then_more": "failing bodies of generators declared with enable_cache=False, followed by more calls",
+    "gen_naming_failed_then_call_repeated": "generator calls whose result could not be NAMED (a parameter value without a JSON form: the failure comes after the body ran), followed by a call that makes the failing call again",
 }
 
 
